@@ -21,7 +21,7 @@ func init() {
 	core.Register(&core.Prop{
 		ID:    "C04",
 		Level: "exploration",
-		Rule: "one case = one revision history: 1..4 revisions over <= 6 object numbers, each revision defines, redefines, frees (generation bump) or leaves each number and may re-use a freed number with the bumped generation; section kind table (1..n subsections, three 20-byte EOL forms), xref stream (any /W up to 8 bytes incl. W[0]=0 and W[2]=0 where allowed, /Index with several ranges, Flate with PNG predictor none/sub/up or uncompressed) or hybrid (/XRefStm lists object-stream members that are absent from the table); " +
+		Rule: "one case = one revision history: 1..4 revisions over <= 6 object numbers (one history in 40: 40..160 numbers, nearly all redefined in every revision), each revision defines, redefines, frees (generation bump) or leaves each number and may re-use a freed number with the bumped generation; section kind table (1..n subsections, three 20-byte EOL forms), xref stream (any /W up to 8 bytes incl. W[0]=0 and W[2]=0 where allowed, /Index with several ranges, Flate with PNG predictor none/sub/up or uncompressed) or hybrid (/XRefStm lists object-stream members that are absent from the table); " +
 			"objects optionally in object streams; 0..1000 bytes before the header; every token rendered with drawn white space, comments, EOLs, literal/hex strings, escapes, #-escaped names; streams with correct, indirect, missing, wrong or unresolvable /Length. " +
 			"The image is opened with the real Reader after EVERY appended revision and compared with the model for every (number, generation) around the used ones. non-trivial = at least 2 revisions or a non-table section; distinct = hash of (per-object fate vector per revision, section kinds, length modes).",
 		Assumptions: []string{
